@@ -329,3 +329,55 @@ fn count_sub(hay: &[u8], needle: &[u8]) -> usize {
     }
     hay.windows(needle.len()).filter(|w| *w == needle).count()
 }
+
+/// Every scalar value >= U+0020 (DEL aside) after each of a set of decoder contexts: exactly one
+/// Char event carrying that scalar, at its last byte.
+pub fn run_scalars(args: &Args, rep: &mut Report) {
+    const CHUNK: u32 = 0x1000;
+    let chunks = (0x110000 / CHUNK) as u64;
+    const CONTEXTS: [&[u8]; 9] = [b"", b"a", b"\r", b"\n", b"\x1b[A", b"\x1b[1;5~", b"\x1b", "é".as_bytes(), b"\xE2\x82"];
+    run_cases(args, "C04", chunks, rep, &mut |c, rep| {
+        if !mine(args, c) {
+            return;
+        }
+        let lo = c as u32 * CHUNK;
+        let mut n = 0u64;
+        for u in lo..lo + CHUNK {
+            let ch = match char::from_u32(u) {
+                Some(ch) if u >= 0x20 && u != 0x7f => ch,
+                _ => continue,
+            };
+            if ch == '[' {
+                continue; // after a lone ESC it is a CSI introducer by definition
+            }
+            n += 1;
+            let mut b4 = [0u8; 4];
+            let enc = ch.encode_utf8(&mut b4).as_bytes().to_vec();
+            for ctx in CONTEXTS {
+                let mut real = InputGenerator::new();
+                let mut rf = RefDecoder::new();
+                for &b in ctx {
+                    let _ = rf.accept(b);
+                    let _ = shadow_accept(&mut real, b);
+                }
+                for (bi, &b) in enc.iter().enumerate() {
+                    let e = rf.accept(b);
+                    let r = shadow_accept(&mut real, b);
+                    rep.evaluations += 1;
+                    let same = match (&r, &e) {
+                        (Shadow::None, None) => true,
+                        (Shadow::Key(k), Some(k2)) => k == k2,
+                        _ => false,
+                    };
+                    if !same {
+                        let tag = format!("scalar-{}byte-{}", enc.len(), if matches!(r, Shadow::None) { "lost" } else { "wrong" });
+                        report(rep, args, "C04", "decoder-lockstep", &tag, c, 1, J::s(format!("U+{:04X} after {}", u, show_bytes(ctx))), format!("U+{:04X} after context {}: at byte {} the decoder yields {:?}, the statement requires {:?}", u, show_bytes(ctx), bi, r, e));
+                        break;
+                    }
+                }
+            }
+        }
+        rep.distinct_disjoint += n;
+        rep.count_n("c04.scalars", n);
+    });
+}
